@@ -403,3 +403,7 @@ func (ps *PubSubNet) membership(a, b peer.ID, join bool) {
 		}
 	}
 }
+
+// Lock / Unlock give oracles consistent access to Published.
+func (ps *PubSubNet) Lock()   { ps.mu.Lock() }
+func (ps *PubSubNet) Unlock() { ps.mu.Unlock() }
